@@ -66,6 +66,8 @@ Fault injection (all deterministic; counters are per fault):
     broker.api_versions = [(key, min, max)...] in ANY order | None (old broker: `old_broker_mode`
         "close" or "ignore");  broker.api_versions_error = code;  broker.max_magic = 0 | 1
     c.kill_broker(n, elect=True) / c.start_broker(n) / c.restart_broker(n, host=None, port=None)
+        (elect=True also moves the dead broker's groups to another coordinator, state kept)
+    c.heal_silence(n)   broker.silent = False + reset of the connections it left muted
     c.move_leader(topic, partition, new, old="not_leader"|"unknown"|"silent"|"down")
     c.move_coordinator(group, node, lose_state=False);  c.remove_from_metadata(n) / restore_to_metadata
     group control: c.join_window (virtual seconds a rebalance of an EMPTY group stays open),
@@ -950,6 +952,8 @@ class Cluster(object):
         payload = R.encode_response(header[0], header[1], header[2], resp)
         framed = R.frame(payload)
         entry["t_sent"] = self.clock.seconds()
+        self._seq += 1
+        entry["n_sent"] = self._seq  # position of the answer in the global order (same counter as "n")
         bc.busy = None
         if cut is not None:
             n = cut.get("nbytes")
@@ -992,6 +996,25 @@ class Cluster(object):
                         self._set_leader(p, cands[0] if cands else -1)
                     else:
                         self._set_leader(p, -1)
+        if elect:
+            self._failover_coordinators(node_id)
+
+    def _failover_coordinators(self, dead):
+        """The offsets-topic partitions led by a dead broker get new leaders: its groups move (state kept)."""
+        ids = [b.node_id for b in self.brokers.values() if b.alive and b.in_metadata and b.node_id != dead]
+        for group, node in list(self.coordinators.items()):
+            if node == dead and ids:
+                self.move_coordinator(group, ids[zlib.crc32(group.encode("utf-8")) % len(ids)])
+
+    def heal_silence(self, node_id):
+        """A hung broker comes back to life: `silent` is cleared and the connections it left muted behind a
+        swallowed request are reset (clients re-send what they still wait for)."""
+        b = self.brokers[node_id]
+        b.silent = False
+        self._admin("heal_silence", broker=node_id)
+        for bc in list(b.conns):
+            if not bc.dead and bc.busy is not None and bc.busy.get("fate") == "silent":
+                self._close(bc)
 
     def start_broker(self, node_id):
         b = self.brokers[node_id]
@@ -1030,8 +1053,9 @@ class Cluster(object):
 
     def move_leader(self, topic, partition, new, old="not_leader"):
         """Leadership moves to node `new` (-1: no leader).  `old`: how the former leader answers for that
-        partition afterwards: "not_leader" (error 6), "unknown" (error 3), "silent" (no answer at all
-        to requests naming it) or "down" (the old broker is killed)."""
+        partition afterwards: "not_leader" (error 6), "unknown" (error 3), "silent" (requests naming it get
+        no answer at all - a lost answer, the connection is NOT muted) or "down" (the old broker is killed;
+        its groups fail over to another coordinator)."""
         p = self.partition(topic, partition)
         prev = p.leader
         if prev != -1 and prev != new:
@@ -1040,6 +1064,7 @@ class Cluster(object):
                 for bc in list(self.brokers[prev].conns):
                     self._close(bc)
                 self._admin("kill_broker", broker=prev, elect=False)
+                self._failover_coordinators(prev)
             else:
                 p.former[prev] = old
         self._set_leader(p, new)
@@ -1210,8 +1235,7 @@ def _h_produce(self, ctx):
                 r["log_append_time"] = -1
             results.append((topic, r))
     if silent:
-        ctx.entry["fate"] = "silent"
-        ctx.bc.busy = ctx.entry
+        ctx.entry["fate"] = "silent"  # the answer is lost; the connection keeps being served
         return NO_RESPONSE
     if acks == 0:
         if any_error and self.acks0_close_on_error:
@@ -1324,8 +1348,7 @@ def _fetch_record(ctx, resp):
 def _h_fetch(self, ctx):
     resp, enough, silent = _fetch_response(self, ctx)
     if silent:
-        ctx.entry["fate"] = "silent"
-        ctx.bc.busy = ctx.entry
+        ctx.entry["fate"] = "silent"  # the answer is lost; the connection keeps being served
         return NO_RESPONSE
     if enough:
         _fetch_record(ctx, resp)
